@@ -384,6 +384,9 @@ C13_Step ==
         /\ (e.exit # 0) => e.cerr
         /\ (e.exit = 0 /\ e.op = "listslots" /\ e.toolran) => (~e.cerr /\ SlotsOK(e.lines, e.slots))
         /\ (e.exit = 0 /\ e.op # "listslots") => (e.reseq /\ (e.cerr = e.aerr))
+        \* shape "toolpem": the tool printed (only) PEM certificates of a kind a served agent can hold; if it ran and
+        \* exited with 0 the served agent returns the first of them, and so does the client, byte for byte
+        /\ (e.exit = 0 /\ e.op # "listslots" /\ e.toolran /\ e.shape = "toolpem") => (~e.aerr /\ ~e.cerr /\ e.reseq)
   /\ (e.mode \in {"model", "real"}) => (e.reseq /\ e.steq)      \* same result and same agent state as the direct twin
 P_C13 == [][C13_Step]_rvars
 Inv_Twin == ag = dag
